@@ -920,9 +920,12 @@ func (t *tokenizer) readTimestamp() (string, error) {
 		return "", err
 	}
 	if c == 'T' {
-		// yyyyT
+		// yyyyT, which must be followed by a stop character like every other timestamp
 		w.WriteByte('T')
-		return w.String(), nil
+		if c, err = t.read(); err != nil {
+			return "", err
+		}
+		return t.readTimestampFinish(c, &w)
 	}
 	if c != '-' {
 		return "", t.invalidChar(c)
@@ -933,9 +936,12 @@ func (t *tokenizer) readTimestamp() (string, error) {
 		return "", err
 	}
 	if c == 'T' {
-		// yyyy-mmT
+		// yyyy-mmT, which must be followed by a stop character like every other timestamp
 		w.WriteByte('T')
-		return w.String(), nil
+		if c, err = t.read(); err != nil {
+			return "", err
+		}
+		return t.readTimestampFinish(c, &w)
 	}
 	if c != '-' {
 		return "", t.invalidChar(c)
